@@ -25,7 +25,7 @@ CLAIMS = {
         ref="§7 C01"),
     "C04": dict(
         technique="Lean 4 refinement proof of the session state machine (all histories of set_text/execute_session) + differential histories long-lived vs fresh calculator with configuration fingerprint hook",
-        text="Proof that for every evaluator, every session state and every sequence of texts the concrete session (set_text; "
+        text="Proof over ALL histories of the five configuration setters: last write wins per group of settings, nothing else changes, the two separator setters commute (SCP.Setters: run_dec/_thou/_num/_pct/_money, run_frame, dec_thou_comm; the setters are model functions the driver's cfg operations go through, the implementation is driven through its real setters one call at a time, in either order, with evaluations in the transient configurations). Proof that for every evaluator, every session state and every sequence of texts the concrete session (set_text; "
              "execute_session)* refines the abstract history spec: one slot per line of each text, in order, variables threaded "
              "(setText_exec, history_refines, history_slot_counts), that execute() depends on (evaluator, text) only (execute_eq, "
              "sessions_isolated), and a kernel-checked witness that the pre-fix cursor behaviour violated it (old_cursor_violates; repaired "
